@@ -249,6 +249,7 @@ type stdioTransport struct {
 	logger      Logger
 	contextFunc StdioContextFunc
 	session     *stdioSession
+	writeMu     sync.Mutex // Serializes frames written to stdout by concurrent request goroutines and the outgoing pump.
 }
 
 // stdioServerTransportOption configures a stdioTransport.
@@ -520,6 +521,10 @@ func (s *stdioTransport) writeResponse(response interface{}, writer io.Writer) e
 	if err != nil {
 		return fmt.Errorf("error marshaling response: %w", err)
 	}
+
+	// One frame at a time: the line and its terminator must not interleave with another writer's.
+	s.writeMu.Lock()
+	defer s.writeMu.Unlock()
 
 	if _, err := writer.Write(data); err != nil {
 		return fmt.Errorf("error writing response: %w", err)
